@@ -190,11 +190,12 @@ fn static_probe(ch: &mut Chooser, ctx: &mut Ctx, kind: Kind, decoder: bool) -> b
             Ok(v) => v,
             Err(msg) => return report_panic(ctx, &kind.name(), "supports", &format!("supports({k},{r})"), false, &msg),
         };
+        let layers_disagree = res.iter().any(|x| x.1 != res[0].1);
         for (name, got) in res {
             ev!(ctx, "  {name}({k},{r}) -> {got}");
             if got != want {
                 return ctx.viol(
-                    &["C08"],
+                    if layers_disagree && fam == Family::Default { &["C08", "C09"] } else { &["C08"] },
                     "envelope",
                     format!("supports/{}/{}", fam.name(), if want { "false-negative" } else { "false-positive" }),
                     format!("{name}({k}, {r}) returned {got}; the documented {} envelope says {want}", fam.name()),
@@ -266,7 +267,21 @@ fn static_probe(ch: &mut Chooser, ctx: &mut Ctx, kind: Kind, decoder: bool) -> b
 
 /// A reset / new target: mostly valid, biased to same-config, shrink-then-grow, crossing the rate boundary.
 fn gen_next_config(ch: &mut Chooser, kind: Kind, cur: (usize, usize, usize)) -> (usize, usize, usize) {
-    match ch.weighted("next.kind", &[3, 3, 2, 2]) {
+    match ch.weighted("next.kind", &[3, 3, 2, 2, 2]) {
+        4 => {
+            // same total need in another shape: half the counts with double the shard size, or the reverse
+            // (a numeric coincidence that independent draws practically never produce)
+            let (k, r, b) = cur;
+            let fam = kind.layer.family();
+            let grow_shards = ch.chance("next.reshape", 1, 2);
+            if grow_shards && k % 2 == 0 && r % 2 == 0 && b <= 4096 && envelope::supported(fam, k / 2, r / 2) {
+                (k / 2, r / 2, b * 2)
+            } else if b % 4 == 0 && k + r <= 3000 && envelope::supported(fam, k * 2, r * 2) {
+                (k * 2, r * 2, b / 2)
+            } else {
+                cur
+            }
+        }
         0 => gen_config_for(ch, kind),
         1 => cur,
         2 => {
@@ -491,6 +506,22 @@ fn dec_engine_props(ctx: &mut Ctx, st: &DecState, call: &DecCall, got: &Outcome)
     }
 }
 
+/// Selection-rule dependence of a wrong answer to `reset` / `new` (C09): a default-family codec must behave
+/// like the dedicated codec the rule names for the target configuration.
+fn twin_props(ctx: &mut Ctx, kind: Kind, decoder: bool, target: (usize, usize, usize), got: &Outcome) -> Vec<&'static str> {
+    let (k, r, b) = target;
+    if kind.layer.family() != Family::Default || !envelope::default_supported(k, r) {
+        return Vec::new();
+    }
+    let twin = Kind { layer: Layer::dedicated(envelope::default_is_high(k, r)), engine: if kind.layer == Layer::Rs { EngineKind::Default } else { kind.engine } };
+    let res = ctx.shadow(|| if decoder { dec_new(twin, k, r, b, None).map(|_| ()) } else { enc_new(twin, k, r, b, None).map(|_| ()) });
+    if &outcome_of(&res) != got {
+        vec!["C09"]
+    } else {
+        Vec::new()
+    }
+}
+
 fn report_panic_x(ctx: &mut Ctx, kind: &str, op: &'static str, call: &str, failed_ever: bool, msg: &str, extra: &[&'static str]) -> bool {
     let mut props = panic_props(op, failed_ever);
     for e in extra {
@@ -700,7 +731,7 @@ pub fn run_encoder(ch: &mut Chooser, ctx: &mut Ctx) {
                 ev!(ctx, "#{op_no} reset{next:?} -> {res:?}");
                 ctx.hash.feed_u64(res.as_ref().err().map_or(0, err_code));
                 if let Some(why) = judge(&res, &[]) {
-                    { let extra = enc_history_props(ctx, &st, &EncCall::Reset(next.0, next.1, next.2), &res.map_or_else(Outcome::Err, |()| Outcome::Ok)); ctx.viol(&verdict_props_x("reset", st.failed_ever, &extra), "verdict", format!("verdict/reset/{}", res.as_ref().err().map_or("Ok", err_name)), format!("{}{:?}.reset{next:?} {why}", st.kind.name(), st.cfg), true); }
+                    { let got = res.map_or_else(Outcome::Err, |()| Outcome::Ok); let mut extra = enc_history_props(ctx, &st, &EncCall::Reset(next.0, next.1, next.2), &got); extra.extend(twin_props(ctx, st.kind, false, next, &got)); ctx.viol(&verdict_props_x("reset", st.failed_ever, &extra), "verdict", format!("verdict/reset/{}", res.as_ref().err().map_or("Ok", err_name)), format!("{}{:?}.reset{next:?} {why}", st.kind.name(), st.cfg), true); }
                     return;
                 }
                 if covers(st.held, need) {
@@ -740,7 +771,7 @@ pub fn run_encoder(ch: &mut Chooser, ctx: &mut Ctx) {
                 ctx.hash.feed_u64(res.as_ref().err().map_or(0, err_code));
                 ctx.count(if envelope::supported(st.kind.layer.family(), next.0, next.1) { "fault.F10.reset_bad_size" } else { "fault.F10.reset_bad_counts" });
                 if let Some(why) = judge(&res, &adm) {
-                    { let extra = enc_history_props(ctx, &st, &EncCall::Reset(next.0, next.1, next.2), &res.map_or_else(Outcome::Err, |()| Outcome::Ok)); ctx.viol(&verdict_props_x("reset", st.failed_ever, &extra), "verdict", format!("verdict/reset-invalid/{}", res.as_ref().err().map_or("Ok", err_name)), format!("{}{:?}.reset{next:?} {why}", st.kind.name(), st.cfg), true); }
+                    { let got = res.map_or_else(Outcome::Err, |()| Outcome::Ok); let mut extra = enc_history_props(ctx, &st, &EncCall::Reset(next.0, next.1, next.2), &got); extra.extend(twin_props(ctx, st.kind, false, next, &got)); ctx.viol(&verdict_props_x("reset", st.failed_ever, &extra), "verdict", format!("verdict/reset-invalid/{}", res.as_ref().err().map_or("Ok", err_name)), format!("{}{:?}.reset{next:?} {why}", st.kind.name(), st.cfg), true); }
                     return;
                 }
                 st.failed_round = true;
@@ -1344,7 +1375,7 @@ pub fn run_decoder(ch: &mut Chooser, ctx: &mut Ctx) {
                 ev!(ctx, "#{op_no} reset{next:?} -> {res:?}");
                 ctx.hash.feed_u64(res.as_ref().err().map_or(0, err_code));
                 if let Some(why) = judge(&res, &[]) {
-                    { let extra = dec_history_props(ctx, &st, &DecCall::Reset(next.0, next.1, next.2), &res.map_or_else(Outcome::Err, |()| Outcome::Ok)); ctx.viol(&verdict_props_x("reset", st.failed_ever, &extra), "verdict", format!("verdict/reset/{}", res.as_ref().err().map_or("Ok", err_name)), format!("{}{:?}.reset{next:?} {why}", st.kind.name(), st.cfg), true); }
+                    { let got = res.map_or_else(Outcome::Err, |()| Outcome::Ok); let mut extra = dec_history_props(ctx, &st, &DecCall::Reset(next.0, next.1, next.2), &got); extra.extend(twin_props(ctx, st.kind, true, next, &got)); ctx.viol(&verdict_props_x("reset", st.failed_ever, &extra), "verdict", format!("verdict/reset/{}", res.as_ref().err().map_or("Ok", err_name)), format!("{}{:?}.reset{next:?} {why}", st.kind.name(), st.cfg), true); }
                     return;
                 }
                 if covers(st.held, need) {
@@ -1381,7 +1412,7 @@ pub fn run_decoder(ch: &mut Chooser, ctx: &mut Ctx) {
                 ctx.hash.feed_u64(res.as_ref().err().map_or(0, err_code));
                 ctx.count(if envelope::supported(st.kind.layer.family(), next.0, next.1) { "fault.F10.reset_bad_size" } else { "fault.F10.reset_bad_counts" });
                 if let Some(why) = judge(&res, &adm) {
-                    { let extra = dec_history_props(ctx, &st, &DecCall::Reset(next.0, next.1, next.2), &res.map_or_else(Outcome::Err, |()| Outcome::Ok)); ctx.viol(&verdict_props_x("reset", st.failed_ever, &extra), "verdict", format!("verdict/reset-invalid/{}", res.as_ref().err().map_or("Ok", err_name)), format!("{}{:?}.reset{next:?} {why}", st.kind.name(), st.cfg), true); }
+                    { let got = res.map_or_else(Outcome::Err, |()| Outcome::Ok); let mut extra = dec_history_props(ctx, &st, &DecCall::Reset(next.0, next.1, next.2), &got); extra.extend(twin_props(ctx, st.kind, true, next, &got)); ctx.viol(&verdict_props_x("reset", st.failed_ever, &extra), "verdict", format!("verdict/reset-invalid/{}", res.as_ref().err().map_or("Ok", err_name)), format!("{}{:?}.reset{next:?} {why}", st.kind.name(), st.cfg), true); }
                     return;
                 }
                 st.failed_round = true;
@@ -1531,6 +1562,7 @@ fn dec_decode(ch: &mut Chooser, ctx: &mut Ctx, obj: &mut dyn DynDecoder, st: &mu
         let mut props = verdict_props_x("decode", st.failed_ever, &extra);
         if adm.is_empty() {
             props.push("C01"); // enough valid shards but decode failed
+            props.push("C08");
         }
         return ctx.viol(&props, "verdict", format!("verdict/decode/{}", out.as_ref().err().map_or("Ok", err_name)), format!("{}{:?}.decode() with {} original + {} recovery shards {why}", st.kind.name(), st.cfg, st.n_o, st.n_r), true);
     }
@@ -1580,7 +1612,8 @@ fn dec_decode(ch: &mut Chooser, ctx: &mut Ctx, obj: &mut dyn DynDecoder, st: &mu
     for (i, s) in &restored {
         if s != &st.stripe.originals[*i] {
             let at = s.iter().zip(st.stripe.originals[*i].iter()).position(|(a, c)| a != c).unwrap_or(0);
-            let mut props = vec!["C01"];
+            // a supported configuration that does not really decode also breaks the last clause of C08
+            let mut props = vec!["C01", "C08"];
             if reused {
                 props.push("C05");
             }
